@@ -93,6 +93,10 @@ func cloneRec(r wm.Rec) wm.Rec {
 
 // changeField alters field i of r so that its wire form differs (and stays well-formed);
 // ok=false when this field cannot be altered in isolation.
+// bitmapReplace selects how changeField alters a type bitmap: add/remove a type, or (true) replace
+// one type by another so that the number of types stays the same.
+var bitmapReplace bool
+
 func changeField(r *wm.Rec, i int, spec wm.FieldSpec) bool {
 	f := &r.Fields[i]
 	flip := func(b []byte, maxLen int) []byte {
@@ -129,6 +133,20 @@ func changeField(r *wm.Rec, i int, spec wm.FieldSpec) bool {
 			f.L[0] = flip(f.L[0], 255)
 		}
 	case wm.Bitmap:
+		if bitmapReplace && len(f.T) > 0 {
+			// same number of types, one of them different
+			k := len(f.T) / 2
+			nv := f.T[k] + 1
+			if k+1 < len(f.T) && f.T[k+1] == nv {
+				nv = f.T[len(f.T)-1] + 1
+				k = len(f.T) - 1
+			}
+			if nv != 0 {
+				f.T = append([]uint16{}, f.T...)
+				f.T[k] = nv
+				return true
+			}
+		}
 		if len(f.T) > 0 && f.T[0] == 1 {
 			f.T = f.T[1:]
 		} else if len(f.T) > 0 && f.T[0] == 0 {
@@ -417,7 +435,10 @@ func derive(t *rapid.T, a wm.Rec) (wm.Rec, string) {
 	default:
 		if len(b.Fields) > 0 && !b.NoRdata {
 			i := rapid.IntRange(0, len(b.Fields)-1).Draw(t, "field")
-			if changeField(&b, i, layout[i]) {
+			bitmapReplace = rapid.Bool().Draw(t, "bmreplace")
+			ok := changeField(&b, i, layout[i])
+			bitmapReplace = false
+			if ok {
 				return b, "one-field-changed"
 			}
 		}
@@ -505,6 +526,14 @@ func eachFieldChange(emit func(pairCase)) {
 			b := cloneRec(a)
 			if changeField(&b, i, layout[i]) {
 				emit(pairCase{A: a, B: b, C: a, How: "one-field-changed"})
+			}
+			if layout[i].K == wm.Bitmap {
+				bitmapReplace = true
+				b2 := cloneRec(a)
+				if changeField(&b2, i, layout[i]) {
+					emit(pairCase{A: a, B: b2, C: a, How: "one-field-changed"})
+				}
+				bitmapReplace = false
 			}
 			// case of an embedded name only
 			if layout[i].K == wm.NameC || layout[i].K == wm.NameU || layout[i].K == wm.GW {
